@@ -62,7 +62,10 @@ def check_graph(cfg, sampler, mol):
         out.append(('c16.blocks_not_canonical', f'{txt}: fragment ids by key {flat[:40]}'))
         return out
     m = len(blocks)
-    templates = sampler.fragment_dict
+    # by the 'fragname' attribute the fragment graphs carry - a caller's library keys need not repeat it
+    templates = {next((d.get('fragname') for _, d in t.nodes(data=True)), key): t for key, t in sampler.fragment_dict.items()}
+    if len(templates) != len(sampler.fragment_dict):
+        templates = sampler.fragment_dict
     corr = {}
     for k, nodes in blocks.items():
         fname = mol.nodes[nodes[0]].get('fragname')
